@@ -51,7 +51,11 @@ EXPLANATION = (
     'result; (D7) the supplied start state is not written; (D8) centres '
     'supplied as (trajectory, frame) pairs are converted to the index in the '
     'concatenated data, missing labels/distances are computed from the centre '
-    'frames. The cost values themselves are not decided.')
+    'frames; (D5.per-run) an estimator hands the seed it was constructed '
+    'with - not a generator object built once in the constructor - to '
+    'every run; (D9) no sanity assertion bounds the start distances of the '
+    'centres by a bare numeric literal (unit / precision of the metric). '
+    'The cost values themselves are not decided.')
 
 
 # ---------------------------------------------------------------------------
@@ -1861,6 +1865,239 @@ def d8_warm_start(ck):
         ck.missing(rule, 'single tuple return of %s' % INPUTS)
 
 
+# ---------------------------------------------------------------------------
+# D5 (estimator objects): the generator of a run is derived from the seed per run
+
+_GENERATOR_CTORS = ('check_random_state', 'RandomState', 'default_rng', 'Generator', 'PCG64', 'MT19937', 'Random')
+
+
+def _self_attr(e, selfname):
+    return isinstance(e, ast.Attribute) and isinstance(e.value, ast.Name) and e.value.id == selfname
+
+
+def _seed_consumers(ck, seeds):
+    """[(module rel, function name, seed parameter)] of the module-level entry
+    points of k-medoids / k-hybrid: the parameter that reaches the proposer's
+    generator (d5_seed), for hybrid() the one it forwards to the sweeps."""
+    out = []
+    seeds = seeds or {}
+    if seeds.get('kmedoids'):
+        out.append((KM, 'kmedoids', seeds['kmedoids']))
+    try:
+        mod = ck.repo.mod(HY)
+        fn = mod.func('hybrid')
+        fi = finfo(mod, fn)
+        modk = ck.repo.mod(KM)
+        callee = modk.func(SWEEPS)
+        sp = seeds.get(SWEEPS) or 'random_state'
+        for c in calls_in(fn):
+            if _last(call_name(c)) == SWEEPS:
+                b = _bind(c, callee, modk)
+                rs = b.get(sp) if b else None
+                root = _param_root(fi, rs) if rs is not None else None
+                if root is not None:
+                    out.append((HY, 'hybrid', root))
+    except AnalysisIncomplete:
+        pass
+    return out
+
+
+def d5_seed_per_run(ck, seeds):
+    """"With a fixed random seed the outcome is reproducible" for the
+    estimator classes: the value an estimator hands to the seed parameter of
+    kmedoids()/hybrid() in a method other than the constructor must be a
+    function of the SEED the constructor received.  An attribute that the
+    constructor binds to a generator OBJECT built from the seed
+    (check_random_state(p), RandomState(p), default_rng(p)) is mutable state
+    shared by all runs of the object: the first run advances it, the second run
+    starts from the advanced stream - its outcome depends on how many runs
+    came before, not on the seed alone."""
+    rule = 'C09.D5.seed.per-run'
+    consumers = _seed_consumers(ck, seeds)
+    if not consumers:
+        ck.missing(rule, 'seed parameter of kmedoids() / hybrid()')
+        return
+    n = 0
+    for rel in (HY, KM):
+        mod = ck.repo.mod(rel)
+        for cname in sorted(mod.classes):
+            init = mod.functions.get('%s.__init__' % cname)
+            if init is None or not params(init):
+                continue
+            for q, meth in sorted(mod.functions.items()):
+                if not q.startswith(cname + '.') or q.count('.') != 1 or meth is init or not params(meth):
+                    continue
+                selfname = params(meth)[0]
+                fim = finfo(mod, meth)
+                for c in calls_in(meth):
+                    for crel, cfn, sp in consumers:
+                        if _last(call_name(c)) != cfn:
+                            continue
+                        cmod = ck.repo.mod(crel)
+                        b = _bind(c, cmod.func(cfn), cmod)
+                        if b is None:
+                            ck.missing(rule, 'arguments of `%s` in %s' % (u(c)[:80], q))
+                            continue
+                        a = b.get(sp)
+                        if a is None:
+                            continue            # the estimator does not seed the run at all
+                        x = fim.expand(a)
+                        attrs = sorted({e.attr for e in walk_expr(x) if _self_attr(e, selfname) and isinstance(e.ctx, ast.Load)})
+                        if not attrs:
+                            continue
+                        ck.analysed(mod, meth)
+                        ck.analysed(mod, init)
+                        for attr in attrs:
+                            n += _seed_attribute(ck, rule, mod, cname, init, q, c, sp, attr)
+    ck.floor(rule, n, 1, 'seed attributes handed to kmedoids()/hybrid() by an estimator method')
+
+
+def _seed_attribute(ck, rule, mod, cname, init, q, call, sp, attr):
+    fi = finfo(mod, init)
+    selfname = params(init)[0]
+    qi = '%s.__init__' % cname
+    stores = [(s, t) for s in walk_local(init) if isinstance(s, ast.Assign)
+              for t in s.targets if _self_attr(t, selfname) and t.attr == attr]
+    if not stores:
+        ck.missing(rule, 'store to self.%s in %s (read by %s for `%s=`)' % (attr, qi, q, sp))
+        return 0
+    n = 0
+    for s, t in stores:
+        n += 1
+        x = canon(fi.expand(s.value))
+        construct = 'self.%s of %s, handed to the run as %s= by %s' % (attr, cname, sp, q.split('.')[-1])
+        if isinstance(x, ast.Name) and fi.rd.defs_at(s, x.id) == {'PARAM'}:
+            ck.ok(rule, mod, s, construct, 'the constructor keeps the seed itself; every run derives its generator from it')
+            continue
+        if isinstance(x, ast.Call) and _last(call_name(x)) in _GENERATOR_CTORS:
+            roots = [nm for nm in names_loaded(x) if fi.rd.defs_at(s, nm) == {'PARAM'}]
+            if roots:
+                ck.bad(rule, mod, s, qi, construct,
+                       '`%s` turns the seed parameter `%s` into ONE generator object when the estimator is constructed; `%s` (%s) '
+                       'hands that same, already advanced object to every run. A second %s() on the same estimator/data/seed '
+                       'continues the stream instead of restarting from the seed: different proposals, different centres and '
+                       'cost - the outcome depends on the number of earlier runs, not on the seed. Keep the seed in the '
+                       'attribute and build the generator in %s'
+                       % (u(s)[:80], roots[0], u(call)[:40] + '...', mod.loc(call), q.split('.')[-1], q.split('.')[-1]))
+                continue
+        ck.missing(rule, 'value stored in self.%s by %s: `%s`' % (attr, qi, u(s)[:80]))
+    return n
+
+
+# ---------------------------------------------------------------------------
+# D9 sanity assertions on the start state must not depend on the unit of the metric
+
+def _unwrap_truth(e):
+    """Strip np.all(...) / (...).all() / all(...) / bool(...) around a test."""
+    while True:
+        if isinstance(e, ast.Call) and not e.keywords:
+            cn = call_name(e) or ''
+            if cn in ('np.all', 'numpy.all', 'all', 'bool', 'np.alltrue') and len(e.args) == 1:
+                e = e.args[0]
+                continue
+            if isinstance(e.func, ast.Attribute) and e.func.attr == 'all' and not e.args:
+                e = e.func.value
+                continue
+        return e
+
+
+_DIST_REDUCERS = ('max', 'min', 'mean', 'sum', 'abs', 'absolute', 'amax', 'amin', 'sqrt', 'square', 'asarray', 'array', 'ravel', 'flatten')
+
+
+def _rooted_in(e, D, depth=6):
+    """`e` is the distance array `D`, a selection of it or a magnitude
+    preserving reduction of one (homogeneous of degree 1 in the metric)."""
+    if depth <= 0:
+        return False
+    if isinstance(e, ast.Name):
+        return e.id == D
+    if isinstance(e, ast.Subscript):
+        return _rooted_in(e.value, D, depth - 1)
+    if isinstance(e, ast.Call):
+        if isinstance(e.func, ast.Attribute) and e.func.attr in _DIST_REDUCERS and _rooted_in(e.func.value, D, depth - 1):
+            return True
+        if _last(call_name(e)) in _DIST_REDUCERS and e.args and _rooted_in(e.args[0], D, depth - 1):
+            return True
+    return False
+
+
+def d9_start_state_asserts(ck):
+    """The property is quantified over ALL metrics; with d, c*d is a metric for
+    every c > 0, and floating-point metrics return their self-distance only up
+    to round-off proportional to the magnitude of the data (md.rmsd: float32).
+    A sanity assertion on the supplied / computed start state that bounds a
+    distance from above by a bare numeric literal (or from below by a non-zero
+    one) is therefore not an invariant of a consistent state: the bound must
+    carry a term measured with the same metric."""
+    rule = 'C09.D9.start-state-assert'
+    mod = ck.repo.mod(KM)
+    fn = mod.func('kmedoids')
+    fi = finfo(mod, fn)
+    ck.analysed(mod, fn)
+    callee = mod.func(SWEEPS)
+    ps = params(callee)
+    D = None
+    for c in calls_in(fn):
+        if _last(call_name(c)) == SWEEPS:
+            b = _bind(c, callee, mod)
+            if b is not None and len(ps) >= 6 and isinstance(b.get(ps[5]), ast.Name):
+                D = b[ps[5]].id
+    if D is None:
+        ck.missing(rule, 'the distance array kmedoids() hands to %s' % SWEEPS)
+        return
+    n = 0
+    for s in walk_local(fn):
+        if not isinstance(s, ast.Assert):
+            continue
+        test = fi.expand(s.test, stop=(D,), strict=False)
+        if D not in names_loaded(test):
+            continue
+        cs = conjuncts(_unwrap_truth(canon(test)), True)
+        if cs is None:
+            ck.missing(rule, 'assertion on the start distances not recognised: `%s`' % u(s)[:100])
+            continue
+        for c in cs:
+            c2 = c
+            if not isinstance(c2, Cmp) and isinstance(c, tuple) and len(c) == 3 and c[2] is True:
+                inner = _unwrap_truth(c[1])
+                sub = conjuncts(inner, True) if inner is not c[1] else None
+                c2 = sub[0] if sub and len(sub) == 1 else c
+            if not isinstance(c2, Cmp) or c2.as_less() is None:
+                if D in names_loaded(fact_node(c)):
+                    ck.missing(rule, 'assertion on the start distances not recognised: `%s`' % u(s)[:100])
+                continue
+            small, strict, big = c2.as_less()
+            for dist, bound, side in ((small, big, 'upper'), (big, small, 'lower')):
+                if not _rooted_in(dist, D):
+                    continue
+                n += 1
+                k = const_value(bound)
+                construct = 'assert <start distances at the centres> %s <bound>' % ('<' if strict else '<=') if side == 'upper' \
+                    else 'assert <bound> %s <start distances>' % ('<' if strict else '<=')
+                if isinstance(k, (int, float)) and not isinstance(k, bool):
+                    if k == 0 and side == 'lower':
+                        ck.ok(rule, mod, s, u(s)[:120], 'distances are non-negative: independent of the unit and the precision of the metric')
+                    else:
+                        ck.bad(rule, mod, s, 'kmedoids', construct + ' (bare literal %r)' % k,
+                               '`%s` bounds a value of the metric by the absolute constant %r. The self-distance of a centre is 0 only '
+                               'up to the round-off of the metric, which scales with the data (md.rmsd works in float32: about '
+                               '4e-4 x radius of gyration, > 0.001 for ordinary proteins), so a CONSISTENT start state - e.g. the '
+                               'state k-hybrid itself returned - fails the assertion and no sweep runs. The bound must be measured '
+                               'with the same metric (the self-distance of the centre frames)' % (u(s)[:100], k))
+                elif names_loaded(bound):
+                    ck.ok(rule, mod, s, u(s)[:120], 'the bound carries a data-dependent term (%s)' % ', '.join(sorted(names_loaded(bound)))[:80])
+                else:
+                    ck.missing(rule, 'bound of the assertion `%s`' % u(s)[:100])
+    if n == 0:
+        ck.ok(rule, mod, fn, 'kmedoids: no assertion bounds the start distances', 'nothing to decide')
+
+
+def fact_node(f):
+    if isinstance(f, Cmp):
+        return ast.Compare(left=f.lhs, ops=[f.op()], comparators=[f.rhs])
+    return f[1]
+
+
 def _guarded(ck, rule, f, *args):
     """An unforeseen shape inside one clause must not hide the findings of the
     others: it is reported as analysis-incomplete for that clause."""
@@ -1888,4 +2125,6 @@ def check(ck):
     _guarded(ck, 'C09.D4.handover', d4_hybrid, ck, seed)
     d6_definite(ck)
     _guarded(ck, 'C09.D8.warm-start', d8_warm_start, ck)
+    _guarded(ck, 'C09.D5.seed.per-run', d5_seed_per_run, ck, seed)
+    _guarded(ck, 'C09.D9.start-state-assert', d9_start_state_asserts, ck)
     return EXPLANATION
